@@ -1495,6 +1495,21 @@ class Flow:
                         merge(rr)
                 return out if found else None
             return None
+        if isinstance(e, ast.Attribute) and isinstance(
+                e.value, ast.Name) and e.value.id in ('self', 'cls') and \
+                fn is not None:
+            # a class-level dict constant
+            ci = fn.cls
+            if ci is None:
+                for sc in self._scope_chain(fn):
+                    if sc.cls is not None:
+                        ci = sc.cls
+                        break
+            if ci is not None:
+                owner, v = ci.find_attr(e.attr)
+                if isinstance(v, ast.Dict) and e.attr in owner.attrs:
+                    return self.record(v, fn, None, depth + 1, _seen)
+            return None
         if isinstance(e, ast.Name) and fn is not None:
             # a module-level dict constant, named directly or as the cell of
             # a table row the loop variable is specialised to
